@@ -260,6 +260,11 @@ func (c *gengoCtx) Doc(typ types.Object) (Tags, []string) {
 	tags, doc := c.universe.Package(typ.Pkg().Path()).Doc(typ.Pos())
 
 	if len(doc) > 0 {
+		if rest, ok := strings.CutPrefix(doc[0], typ.Name()); !ok || (rest != "" && !strings.HasPrefix(rest, " ") && !strings.HasPrefix(rest, "\t")) {
+			// the first word is not the name itself ("Opaque ..." for a type Op): nothing to strip
+			return merge(c.args.Globals, c.pkgTags, tags), doc
+		}
+
 		doc[0] = strings.TrimSpace(strings.TrimPrefix(doc[0], typ.Name()))
 		if len(doc[0]) == 0 {
 			doc = doc[1:]
